@@ -12,6 +12,8 @@ def wrapper_exc(e):
 
     if isinstance(e, SymTypeError):
         return True
+    if not isinstance(e, BaseException):
+        return False  # a returned value, not an exception
     msg = str(e)
     if isinstance(e, TypeError) and any(w in msg for w in ("SymNum", "SymBool", "SegStr", "Dual")):
         return True
